@@ -47,7 +47,9 @@ type Case struct {
 	// sess
 	Role    string `json:"role,omitempty"`    // coord | peer
 	Outcome string `json:"outcome,omitempty"` // success | error | silent | timeout | cancel
-	Phase   string `json:"phase,omitempty"`   // before | during
+	Phase   string `json:"phase,omitempty"`   // before | during | entry (cancel: the context is already done when Execute is called)
+	// phase entry: "" the context is already cancelled | deadline: its deadline has already passed
+	Ctx string `json:"ctx,omitempty"`
 	NProc   int    `json:"nproc,omitempty"`
 	// streams
 	Ops []StreamOp `json:"ops,omitempty"`
@@ -493,6 +495,19 @@ func runSessOnce(c Case, short time.Duration) (Obs, bool) {
 	}
 	ctx, cancel := context.WithCancel(context.Background())
 	defer cancel()
+	entry := c.Phase == "entry"
+	if entry {
+		// the caller has given up before it calls Execute (the executor cancelled its execution context:
+		// the proposal is already executed; a shared pool context cancelled by a sibling task; a deadline
+		// that has passed)
+		if c.Ctx == "deadline" {
+			var c2 context.CancelFunc
+			ctx, c2 = context.WithDeadline(ctx, time.Now().Add(-time.Second))
+			defer c2()
+		} else {
+			cancel()
+		}
+	}
 	done := make(chan error, 1)
 	go func() { done <- e.c.Execute(ctx, procs, make(chan interface{}, 4)) }()
 
@@ -530,7 +545,7 @@ func runSessOnce(c Case, short time.Duration) (Obs, bool) {
 			done <- early
 			ok = false
 		}
-	} else {
+	} else if !entry {
 		// make sure the wait loop is established before striking
 		if coord {
 			waitFor(func() bool { return e.comm.Subscribers(sid, comm.TssReadyMsg) >= 1 })
@@ -803,6 +818,11 @@ func gen(r *vgen.Rng, tier string) []Case {
 					}
 					out = append(out, Case{Kind: "sess", Role: role, Outcome: oc, Phase: ph, NProc: np})
 				}
+				if oc == "cancel" {
+					// the state in which Execute is ENTERED: the context is already cancelled / past its deadline
+					out = append(out, Case{Kind: "sess", Role: role, Outcome: oc, Phase: "entry", NProc: np},
+						Case{Kind: "sess", Role: role, Outcome: oc, Phase: "entry", Ctx: "deadline", NProc: np})
+				}
 			}
 		}
 	}
@@ -987,7 +1007,7 @@ func coq(c Case, o Obs) string {
 		role := map[string]string{"coord": "Coord", "peer": "Peer"}[c.Role]
 		oc := map[string]string{"success": "Success", "error": "ProcessError", "silent": "CoordinatorSilent",
 			"timeout": "GlobalTimeout", "cancel": "Cancelled"}[c.Outcome]
-		ph := map[string]string{"before": "BeforeStart", "during": "DuringRun", "": "BeforeStart"}[c.Phase]
+		ph := map[string]string{"before": "BeforeStart", "during": "DuringRun", "": "BeforeStart", "entry": "BeforeEntry"}[c.Phase]
 		ret := map[string]string{"nil": "RNil", "pending": "RPending", "coordinator": "RCoordinatorErr",
 			"timeout": "RTimeout", "process": "RProcessErr", "": "RPending"}[o.Ret]
 		evs := make([]string, len(o.Evs))
@@ -1111,6 +1131,9 @@ func kind(c Case) string {
 		}
 		return k
 	case "sess":
+		if c.Ctx != "" {
+			return "sess/" + c.Outcome + "/" + c.Phase + "-" + c.Ctx + "/" + c.Role
+		}
 		return "sess/" + c.Outcome + "/" + c.Phase + "/" + c.Role
 	case "streams":
 		for _, f := range c.Fails {
@@ -1128,9 +1151,9 @@ func kind(c Case) string {
 		}
 	case "tear":
 		if c.At == 0 {
-			return "tear/in-close-session/" + c.Outcome
+			return "tear/in-close-session/" + c.Outcome + map[string]string{"entry": "-entry"}[c.Phase]
 		}
-		return "tear/in-stop/" + c.Outcome
+		return "tear/in-stop/" + c.Outcome + map[string]string{"entry": "-entry"}[c.Phase]
 	case "commw":
 		k := "commw"
 		of, wf := false, false
@@ -1184,6 +1207,6 @@ func main() {
 			}
 			return true
 		},
-		Rule: "admission: 2..8 overlapping Execute calls x {equal, distinct, mixed session ids} x {natural schedule, all requests held until none makes progress, then let through one critical section at a time}; storm: hundreds of rounds of 2..8 free-running requests for one session id released by a barrier, with 16/8/4/2 OS threads; sessions: role x outcome x phase x 1..3 processes, each followed by a restart of the same id; comm: random sequences of single-peer Broadcasts and CloseSessions on the real Libp2pCommunication over a fake host (two thirds with streams whose Close fails); tear: role x outcome x 1..3 processes x every point at which the teardown can be parked (inside CloseSession, inside Stop of each process), a second request for the same id issued there, a third after everything ended; commw: random sequences of Broadcasts to 1..3 peers and CloseSessions on the real Libp2pCommunication with scripted NewStream failures, failing first / later writes and failing Close (a third fault free); racecomm: 12 goroutines x 120 session lifetimes on one real Libp2pCommunication value plus sessions of the real Execute on it, under the race detector; streams: random AddStream/Stream/ReleaseStreams sequences on the real StreamManager, two thirds of them with streams whose Close fails, releases followed by fresh streams for the same session id; distinct = distinct input JSON; non-trivial = admission cases with at least two requests for one id, every session case, stream cases with more than 6 operations",
+		Rule: "admission: 2..8 overlapping Execute calls x {equal, distinct, mixed session ids} x {natural schedule, all requests held until none makes progress, then let through one critical section at a time}; storm: hundreds of rounds of 2..8 free-running requests for one session id released by a barrier, with 16/8/4/2 OS threads; sessions: role x outcome x phase x 1..3 processes, each followed by a restart of the same id, incl. the context that is already cancelled / past its deadline when Execute is called (phase entry); comm: random sequences of single-peer Broadcasts and CloseSessions on the real Libp2pCommunication over a fake host (two thirds with streams whose Close fails); tear: role x outcome x 1..3 processes x every point at which the teardown can be parked (inside CloseSession, inside Stop of each process), a second request for the same id issued there, a third after everything ended; commw: random sequences of Broadcasts to 1..3 peers and CloseSessions on the real Libp2pCommunication with scripted NewStream failures, failing first / later writes and failing Close (a third fault free); racecomm: 12 goroutines x 120 session lifetimes on one real Libp2pCommunication value plus sessions of the real Execute on it, under the race detector; streams: random AddStream/Stream/ReleaseStreams sequences on the real StreamManager, two thirds of them with streams whose Close fails, releases followed by fresh streams for the same session id; distinct = distinct input JSON; non-trivial = admission cases with at least two requests for one id, every session case, stream cases with more than 6 operations",
 	})
 }
